@@ -216,20 +216,20 @@ theorem encodeStep_congr (O : Oracles) {a b : Enc} (x : Inp) (h : view a = view 
   · -- SILK produced no output: prev_mode unchanged
     by_cases hr : (O.phaseB (view b) (O.phaseA (view b) x) x).silkRan = true
     · simp only [hr, if_true]
-      exact { he with prevChannels := rfl, analysis := rfl, peakSignalEnergy := rfl, voiceRatio := rfl, detectedBandwidth := rfl, widthMem := rfl, rangeFinal := rfl, streamChannels := rfl, forceChannels := rfl, mode := rfl, bandwidth := rfl, autoBandwidth := rfl, celtState := rfl, celtForceIntra := rfl, celtDisablePf := rfl, hybridStereoWidthQ14 := rfl, variableHPsmth2Q15 := rfl, prevHBgain := rfl, hpMem := rfl, delayBuffer := rfl, silkBwSwitch := rfl, nonfinalFrame := rfl, lbrrCoded := rfl, toMono := fun _ => rfl, useDTX := fun _ => rfl, silkState := rfl, allowBandwidthSwitch := rfl, inWBmodeWithoutVariableLP := rfl, canSwitch := fun _ => rfl, nChInt := fun _ => rfl }
+      exact { he with prevChannels := rfl, analysis := rfl, peakSignalEnergy := rfl, voiceRatio := rfl, detectedBandwidth := rfl, widthMem := rfl, rangeFinal := rfl, streamChannels := rfl, mode := rfl, bandwidth := rfl, autoBandwidth := rfl, celtState := rfl, celtForceIntra := rfl, celtDisablePf := rfl, hybridStereoWidthQ14 := rfl, variableHPsmth2Q15 := rfl, prevHBgain := rfl, hpMem := rfl, delayBuffer := rfl, silkBwSwitch := rfl, nonfinalFrame := rfl, lbrrCoded := rfl, toMono := fun _ => rfl, useDTX := fun _ => rfl, silkState := rfl, allowBandwidthSwitch := rfl, inWBmodeWithoutVariableLP := rfl, canSwitch := fun _ => rfl, nChInt := fun _ => rfl }
     · simp only [hr]
-      exact { he with prevChannels := rfl, analysis := rfl, peakSignalEnergy := rfl, voiceRatio := rfl, detectedBandwidth := rfl, widthMem := rfl, rangeFinal := rfl, streamChannels := rfl, forceChannels := rfl, mode := rfl, bandwidth := rfl, autoBandwidth := rfl, celtState := rfl, celtForceIntra := rfl, celtDisablePf := rfl, hybridStereoWidthQ14 := rfl, variableHPsmth2Q15 := rfl, prevHBgain := rfl, hpMem := rfl, delayBuffer := rfl, silkBwSwitch := rfl, nonfinalFrame := rfl, lbrrCoded := rfl, toMono := fun _ => rfl, useDTX := fun _ => rfl }
+      exact { he with prevChannels := rfl, analysis := rfl, peakSignalEnergy := rfl, voiceRatio := rfl, detectedBandwidth := rfl, widthMem := rfl, rangeFinal := rfl, streamChannels := rfl, mode := rfl, bandwidth := rfl, autoBandwidth := rfl, celtState := rfl, celtForceIntra := rfl, celtDisablePf := rfl, hybridStereoWidthQ14 := rfl, variableHPsmth2Q15 := rfl, prevHBgain := rfl, hpMem := rfl, delayBuffer := rfl, silkBwSwitch := rfl, nonfinalFrame := rfl, lbrrCoded := rfl, toMono := fun _ => rfl, useDTX := fun _ => rfl }
   · -- at least one frame completed
     by_cases hw : isSilkMode (O.phaseB (view b) (O.phaseA (view b) x) x).prevMode = true
     · simp only [hw, Bool.or_true, if_true]
-      exact { he with analysis := rfl, peakSignalEnergy := rfl, voiceRatio := rfl, detectedBandwidth := rfl, widthMem := rfl, rangeFinal := rfl, streamChannels := rfl, forceChannels := rfl, mode := rfl, bandwidth := rfl, autoBandwidth := rfl, celtState := rfl, celtForceIntra := rfl, celtDisablePf := rfl, hybridStereoWidthQ14 := rfl, variableHPsmth2Q15 := rfl, prevHBgain := rfl, hpMem := rfl, delayBuffer := rfl, silkBwSwitch := rfl, nonfinalFrame := rfl, lbrrCoded := rfl, toMono := fun _ => rfl, useDTX := fun _ => rfl, silkState := rfl, allowBandwidthSwitch := rfl, inWBmodeWithoutVariableLP := rfl, canSwitch := fun _ => rfl, nChInt := fun _ => rfl, prevMode := rfl, prevChannels := rfl, prevFramesize := rfl, first := rfl, nbNoActivityMsQ1 := rfl }
+      exact { he with analysis := rfl, peakSignalEnergy := rfl, voiceRatio := rfl, detectedBandwidth := rfl, widthMem := rfl, rangeFinal := rfl, streamChannels := rfl, mode := rfl, bandwidth := rfl, autoBandwidth := rfl, celtState := rfl, celtForceIntra := rfl, celtDisablePf := rfl, hybridStereoWidthQ14 := rfl, variableHPsmth2Q15 := rfl, prevHBgain := rfl, hpMem := rfl, delayBuffer := rfl, silkBwSwitch := rfl, nonfinalFrame := rfl, lbrrCoded := rfl, toMono := fun _ => rfl, useDTX := fun _ => rfl, silkState := rfl, allowBandwidthSwitch := rfl, inWBmodeWithoutVariableLP := rfl, canSwitch := fun _ => rfl, nChInt := fun _ => rfl, prevMode := rfl, prevChannels := rfl, prevFramesize := rfl, first := rfl, nbNoActivityMsQ1 := rfl }
     · have hw' : ¬ ((O.phaseB (view b) (O.phaseA (view b) x) x).prevMode = MODE_SILK_ONLY ∨ (O.phaseB (view b) (O.phaseA (view b) x) x).prevMode = MODE_HYBRID) := by
         intro hg; apply hw; simpa [isSilkMode] using hg
       by_cases hr : (O.phaseB (view b) (O.phaseA (view b) x) x).silkRan = true
       · simp only [hw, hr, Bool.or_false, if_true]
-        exact { he with analysis := rfl, peakSignalEnergy := rfl, voiceRatio := rfl, detectedBandwidth := rfl, widthMem := rfl, rangeFinal := rfl, streamChannels := rfl, forceChannels := rfl, mode := rfl, bandwidth := rfl, autoBandwidth := rfl, celtState := rfl, celtForceIntra := rfl, celtDisablePf := rfl, hybridStereoWidthQ14 := rfl, variableHPsmth2Q15 := rfl, prevHBgain := rfl, hpMem := rfl, delayBuffer := rfl, silkBwSwitch := rfl, nonfinalFrame := rfl, lbrrCoded := rfl, toMono := fun _ => rfl, useDTX := fun _ => rfl, silkState := rfl, allowBandwidthSwitch := rfl, inWBmodeWithoutVariableLP := rfl, canSwitch := fun _ => rfl, nChInt := fun _ => rfl, prevMode := rfl, prevChannels := rfl, prevFramesize := rfl, first := rfl, nbNoActivityMsQ1 := rfl }
+        exact { he with analysis := rfl, peakSignalEnergy := rfl, voiceRatio := rfl, detectedBandwidth := rfl, widthMem := rfl, rangeFinal := rfl, streamChannels := rfl, mode := rfl, bandwidth := rfl, autoBandwidth := rfl, celtState := rfl, celtForceIntra := rfl, celtDisablePf := rfl, hybridStereoWidthQ14 := rfl, variableHPsmth2Q15 := rfl, prevHBgain := rfl, hpMem := rfl, delayBuffer := rfl, silkBwSwitch := rfl, nonfinalFrame := rfl, lbrrCoded := rfl, toMono := fun _ => rfl, useDTX := fun _ => rfl, silkState := rfl, allowBandwidthSwitch := rfl, inWBmodeWithoutVariableLP := rfl, canSwitch := fun _ => rfl, nChInt := fun _ => rfl, prevMode := rfl, prevChannels := rfl, prevFramesize := rfl, first := rfl, nbNoActivityMsQ1 := rfl }
       · simp only [hw, hr, Bool.or_false]
-        exact { he with analysis := rfl, peakSignalEnergy := rfl, voiceRatio := rfl, detectedBandwidth := rfl, widthMem := rfl, rangeFinal := rfl, streamChannels := rfl, forceChannels := rfl, mode := rfl, bandwidth := rfl, autoBandwidth := rfl, celtState := rfl, celtForceIntra := rfl, celtDisablePf := rfl, hybridStereoWidthQ14 := rfl, variableHPsmth2Q15 := rfl, prevHBgain := rfl, hpMem := rfl, delayBuffer := rfl, silkBwSwitch := rfl, nonfinalFrame := rfl, lbrrCoded := rfl, toMono := fun _ => rfl, useDTX := fun _ => rfl, prevMode := rfl, prevChannels := rfl, prevFramesize := rfl, first := rfl, nbNoActivityMsQ1 := rfl, nChInt := fun hg => absurd hg hw' }
+        exact { he with analysis := rfl, peakSignalEnergy := rfl, voiceRatio := rfl, detectedBandwidth := rfl, widthMem := rfl, rangeFinal := rfl, streamChannels := rfl, mode := rfl, bandwidth := rfl, autoBandwidth := rfl, celtState := rfl, celtForceIntra := rfl, celtDisablePf := rfl, hybridStereoWidthQ14 := rfl, variableHPsmth2Q15 := rfl, prevHBgain := rfl, hpMem := rfl, delayBuffer := rfl, silkBwSwitch := rfl, nonfinalFrame := rfl, lbrrCoded := rfl, toMono := fun _ => rfl, useDTX := fun _ => rfl, prevMode := rfl, prevChannels := rfl, prevFramesize := rfl, first := rfl, nbNoActivityMsQ1 := rfl, nChInt := fun hg => absurd hg hw' }
 
 theorem view_encGet (G : GetOracle) {a b : Enc} (req : Int) (h : view a = view b) :
     encGet G a req = encGet G b req := by
